@@ -68,6 +68,9 @@ int main (int argc, char **argv)
 		volatile float fi = (float) iv ;
 		printf ("i2f %d %x\n", iv, u_of (fi)) ;
 		printf ("i2d %d %llx\n", iv, (unsigned long long) ud_of ((double) iv)) ;
+		{ volatile float qf = fa / fb ; volatile double qd = dc / dd ;
+		  if (! isnan (qf)) printf ("div32 %x %x %x\n", a, b, u_of (qf)) ;
+		  if (! isnan (qd)) printf ("div64 %llx %llx %llx\n", (unsigned long long) c, (unsigned long long) d, (unsigned long long) ud_of (qd)) ; }
 		printf ("cmp32 %x %x %d\n", a, b, (fa >= fb) * 2 + (fa <= fb)) ;
 		} ;
 	return 0 ;
